@@ -64,6 +64,10 @@ type Prov struct {
 	Inline func(*ssa.Function) bool
 	// MaxDepth bounds inlining (default 2).
 	MaxDepth int
+	// Through, when it returns a non-nil list, makes a call transparent: the
+	// result is traced into the listed arguments (builtin append is always
+	// traced into both operands).
+	Through func(*ssa.CallCommon) []int
 }
 
 type provKey struct {
@@ -72,9 +76,16 @@ type provKey struct {
 	addr bool
 }
 
+type provAtKey struct {
+	v    ssa.Value
+	path string
+	at   ssa.Instruction
+}
+
 type walker struct {
-	pv    *Prov
-	seen  map[provKey]bool
+	pv     *Prov
+	seenAt map[provAtKey]bool
+	seen   map[provKey]bool
 	out   []Src
 	depth int
 }
@@ -138,11 +149,11 @@ func (w *walker) val(v ssa.Value, path []string) {
 		w.val(x.X, cat(n, path))
 	case *ssa.FieldAddr, *ssa.IndexAddr:
 		// pointer value itself: treat selection through it as a deref
-		w.addr(v, path)
+		w.addr(v, path, nil)
 	case *ssa.UnOp:
 		switch x.Op {
 		case token.MUL:
-			w.addr(x.X, path)
+			w.addr(x.X, path, x)
 		case token.ARROW:
 			w.leaf(Src{Kind: "recv", V: x.X, Path: path})
 		default:
@@ -176,7 +187,7 @@ func (w *walker) val(v ssa.Value, path []string) {
 		w.leaf(Src{Kind: "binop", V: x, Path: path})
 	case *ssa.Alloc:
 		if len(path) > 0 {
-			w.addr(x, path)
+			w.addr(x, path, nil)
 		} else {
 			w.leaf(Src{Kind: "alloc", V: x})
 		}
@@ -243,6 +254,22 @@ func (w *walker) extract(x *ssa.Extract, path []string) {
 }
 
 func (w *walker) call(v ssa.Value, cc *ssa.CallCommon, res int, path []string) {
+	if b, ok := cc.Value.(*ssa.Builtin); ok && b.Name() == "append" {
+		for _, a := range cc.Args {
+			w.val(a, path)
+		}
+		return
+	}
+	if w.pv.Through != nil {
+		if idx := w.pv.Through(cc); idx != nil {
+			for _, i := range idx {
+				if i < len(cc.Args) {
+					w.val(cc.Args[i], path)
+				}
+			}
+			return
+		}
+	}
 	callee := cc.StaticCallee()
 	maxd := w.pv.MaxDepth
 	if maxd == 0 {
@@ -276,22 +303,34 @@ func (w *walker) call(v ssa.Value, cc *ssa.CallCommon, res int, path []string) {
 	w.leaf(Src{Kind: "call", V: v, Call: cc, Res: res, Path: path})
 }
 
-// addr walks the possible contents of *a selected by path.
-func (w *walker) addr(a ssa.Value, path []string) {
+// addr walks the possible contents of *a selected by path, as seen by the load
+// instruction at (nil = flow-insensitive).
+func (w *walker) addr(a ssa.Value, path []string, at ssa.Instruction) {
 	k := provKey{a, strings.Join(path, "."), true}
-	if w.seen[k] {
-		return
+	if at == nil {
+		if w.seen[k] {
+			return
+		}
+		w.seen[k] = true
+	} else {
+		ak := provAtKey{a, strings.Join(path, "."), at}
+		if w.seenAt == nil {
+			w.seenAt = map[provAtKey]bool{}
+		}
+		if w.seenAt[ak] {
+			return
+		}
+		w.seenAt[ak] = true
 	}
-	w.seen[k] = true
 	switch x := a.(type) {
 	case *ssa.Alloc:
-		w.allocStores(x, path)
+		w.allocStores(x, path, at)
 	case *ssa.FieldAddr:
 		n, _ := FieldName(x)
-		w.addr(x.X, cat(n, path))
+		w.addr(x.X, cat(n, path), at)
 	case *ssa.IndexAddr:
 		if _, isPtr := x.X.Type().Underlying().(*types.Pointer); isPtr {
-			w.addr(x.X, cat("[]", path))
+			w.addr(x.X, cat("[]", path), at)
 		} else {
 			w.val(x.X, cat("[]", path))
 		}
@@ -299,12 +338,12 @@ func (w *walker) addr(a ssa.Value, path []string) {
 		w.leaf(Src{Kind: "global", V: x, Path: path})
 	case *ssa.Phi:
 		for _, e := range x.Edges {
-			w.addr(e, path)
+			w.addr(e, path, at)
 		}
 	case *ssa.FreeVar:
 		// captured variable: resolve to the cell in the enclosing function
 		if cell := ResolveFreeVar(x); cell != nil {
-			w.addr(cell, path)
+			w.addr(cell, path, nil)
 			return
 		}
 		w.leaf(Src{Kind: "freevar", V: x, Path: path})
@@ -369,77 +408,81 @@ func StoresTo(cell ssa.Value) []*ssa.Store {
 	return out
 }
 
-func (w *walker) allocStores(a ssa.Value, path []string) {
-	found := false
-	escaped := false
-	var visit func(cell ssa.Value, path []string)
-	visit = func(cell ssa.Value, path []string) {
-		refs := cell.Referrers()
-		if refs == nil {
-			return
-		}
-		for _, r := range *refs {
-			switch x := r.(type) {
-			case *ssa.Store:
-				if x.Addr == cell {
-					found = true
-					w.val(x.Val, path)
+// storeCand is a store (or out-parameter call) that may define cell.path.
+type storeCand struct {
+	ins    ssa.Instruction // *ssa.Store, or the call for out-parameters
+	val    ssa.Value       // stored value (nil for out-parameters)
+	rest   []string        // remaining path to select on val
+	strong bool            // overwrites the requested path entirely
+	cc     *ssa.CallCommon
+	cell   ssa.Value
+}
+
+func collectStores(cell ssa.Value, path []string, out *[]storeCand) {
+	refs := cell.Referrers()
+	if refs == nil {
+		return
+	}
+	for _, r := range *refs {
+		switch x := r.(type) {
+		case *ssa.Store:
+			if x.Addr == cell {
+				*out = append(*out, storeCand{ins: x, val: x.Val, rest: path, strong: true})
+			}
+		case *ssa.FieldAddr:
+			if x.X != cell || len(path) == 0 {
+				continue
+			}
+			if n, _ := FieldName(x); path[0] == n {
+				collectStores(x, path[1:], out)
+			}
+		case *ssa.IndexAddr:
+			if x.X != cell {
+				continue
+			}
+			if len(path) > 0 && path[0] == "[]" {
+				var sub []storeCand
+				collectStores(x, path[1:], &sub)
+				for _, sc := range sub {
+					sc.strong = false // another index may be meant
+					*out = append(*out, sc)
 				}
-			case *ssa.FieldAddr:
-				if x.X != cell {
-					continue
-				}
-				n, _ := FieldName(x)
-				if len(path) == 0 {
-					// whole struct requested: report composite once
-					continue
-				}
-				if path[0] == n {
-					visit(x, path[1:])
-				}
-			case *ssa.IndexAddr:
-				if x.X != cell {
-					continue
-				}
-				if len(path) > 0 && path[0] == "[]" {
-					visit(x, path[1:])
-				}
-			case *ssa.MakeClosure:
-				for i, b := range x.Bindings {
-					if b == cell {
-						if fn, ok := x.Fn.(*ssa.Function); ok && i < len(fn.FreeVars) {
-							visit(fn.FreeVars[i], path)
-						}
+			}
+		case *ssa.MakeClosure:
+			for i, b := range x.Bindings {
+				if b == cell {
+					if fn, ok := x.Fn.(*ssa.Function); ok && i < len(fn.FreeVars) {
+						collectStores(fn.FreeVars[i], path, out)
 					}
 				}
-			case *ssa.Call, *ssa.Defer, *ssa.Go:
-				cc := CallOf(r)
-				for _, arg := range cc.Args {
-					if arg == cell {
-						escaped = true
-						found = true
-						w.leaf(Src{Kind: "outparam", V: cell, Call: cc, Path: path})
-					}
+			}
+		case *ssa.Call, *ssa.Defer, *ssa.Go:
+			cc := CallOf(r)
+			for _, arg := range cc.Args {
+				if arg == cell {
+					*out = append(*out, storeCand{ins: r, rest: path, cc: cc, cell: cell})
 				}
-			case *ssa.MakeInterface:
-				// &x boxed into an interface and passed on (binary.Read(r, order, &v))
-				if x.X == cell {
-					if irefs := x.Referrers(); irefs != nil {
-						for _, ir := range *irefs {
-							if cc := CallOf(ir); cc != nil {
-								escaped = true
-								found = true
-								w.leaf(Src{Kind: "outparam", V: cell, Call: cc, Path: path})
-							}
+			}
+		case *ssa.MakeInterface:
+			// &x boxed into an interface and passed on (binary.Read(r, order, &v))
+			if x.X == cell {
+				if irefs := x.Referrers(); irefs != nil {
+					for _, ir := range *irefs {
+						if cc := CallOf(ir); cc != nil {
+							*out = append(*out, storeCand{ins: ir, rest: path, cc: cc, cell: cell})
 						}
 					}
 				}
 			}
 		}
 	}
+}
+
+func (w *walker) allocStores(a *ssa.Alloc, path []string, at ssa.Instruction) {
+	var cands []storeCand
+	collectStores(a, path, &cands)
+	hasField := false
 	if len(path) == 0 {
-		// whole-cell request
-		hasField := false
 		if refs := a.Referrers(); refs != nil {
 			for _, r := range *refs {
 				if fa, ok := r.(*ssa.FieldAddr); ok && fa.X == a {
@@ -447,16 +490,52 @@ func (w *walker) allocStores(a ssa.Value, path []string) {
 				}
 			}
 		}
-		visit(a, path)
-		if hasField {
-			w.leaf(Src{Kind: "composite", V: a})
-			found = true
-		}
-	} else {
-		visit(a, path)
 	}
-	_ = escaped
-	if !found {
+	// flow-sensitive filtering is possible when the load and every candidate live in the alloc's function
+	flow := at != nil && at.Parent() == a.Parent() && !hasField
+	for _, sc := range cands {
+		if sc.ins.Parent() != a.Parent() {
+			flow = false
+		}
+	}
+	reaches := func(from ssa.Instruction, self ssa.Instruction) bool {
+		hit, _ := Reach{
+			Target: func(ins ssa.Instruction) bool { return ins == at },
+			Avoid: func(ins ssa.Instruction) bool {
+				if ins == self {
+					return false
+				}
+				for _, sc := range cands {
+					if sc.strong && sc.ins == ins {
+						return true
+					}
+				}
+				return false
+			},
+		}.From(from)
+		return hit != nil
+	}
+	found := false
+	for _, sc := range cands {
+		if flow && !reaches(sc.ins, sc.ins) {
+			continue
+		}
+		found = true
+		if sc.val != nil {
+			w.val(sc.val, sc.rest)
+		} else {
+			w.leaf(Src{Kind: "outparam", V: sc.cell, Call: sc.cc, Path: sc.rest})
+		}
+	}
+	if hasField {
+		w.leaf(Src{Kind: "composite", V: a})
+		found = true
+	}
+	if flow {
+		if reaches(a, nil) {
+			w.leaf(Src{Kind: "zero", V: a, Path: path})
+		}
+	} else if !found {
 		w.leaf(Src{Kind: "zero", V: a, Path: path})
 	}
 }
